@@ -33,6 +33,7 @@ class Model:
     def __init__(self, prog):
         self.cx = common.Ctx(prog)
         cx = self.cx
+        FM.register_accum_helpers(prog.lib)
         self.vq, self.aq = c06.queues(cx)
         if len(self.vq) != 1 or len(self.aq) != 1:
             raise AnchorMissing("sample queues: video=%s audio=%s" % (sorted(self.vq), sorted(self.aq)))
